@@ -8,19 +8,41 @@ CFG = {
             "CHILD PROCESS, on 127.0.0.1, 0.0.0.0, [::] and [::1] with a free port per scenario (found by binding port "
             "0); 0..16 client connections (large states: up to 5 008), one letter each: J just accepted (nothing sent), K idle keep-alive (one "
             "request answered, open), H half-sent request, S/L handler running short (30 ms) / long (350 ms), W "
-            "response being written (2 MiB body, client not reading), O WebSocket open; pools of 1..8 threads "
+            "response being written (2 MiB body, client not reading), O WebSocket open; a..o PIPELINED keep-alive "
+            "connections (letter = a + 5*first + count index): 2, 3, 4, 5 or 64 complete requests written with one "
+            "write before anything is read, the first one /short (30 ms), /long (350 ms) or /gate (the handler runs "
+            "until the harness opens a gate, which it does after run has returned: the signal always lands while "
+            "it runs), the others /n/<i> (answered at once, body = URI) or /ns/<i> (after 30 ms), seed-chosen; all "
+            "but the last carry Connection: Keep-Alive, the last one by the seed; in half of the pipelines one "
+            "seed-chosen follower carries a padding header of 100 / 1 000 / 4 096 / 8 192 / 9 000 bytes (the "
+            "pipeline does or does not fit the server's 8 KiB read buffer); pools of 1..8 threads "
             "including fully occupied ones (more holding connections than threads, in-flight requests queued behind "
             "them); optional 120/150 ms connection timeout; optional connection condition that refuses every fourth "
             "connection; signal mode B before the first connection, M after the first k connections (the rest connect "
             "afterwards), C from a second thread concurrently with the connects, A after all connections are placed. "
             "Fixed block (every address x every mode, every state alone with a free and with an occupied pool, "
-            "saturated pools) plus seed-chosen scenarios. LARGE STATES (signal mode Q, both runtimes, every tier): "
+            "saturated pools; per runtime 28 pipelined scenarios: each of the 12 kinds with 2..5 requests alone, "
+            "each first handler behind a connection that holds the only worker, each first handler with 64 "
+            "requests, 4 mixes with several pipelines among the other states (more pipelines than threads), "
+            "modes M / C / B with pipelines before, concurrently with and after the signal, one with a 150 ms "
+            "connection timeout, one with the refusing condition) plus seed-chosen scenarios (quick 160 threaded + "
+            "60 tokio, thorough 3 000 each; every connection is a pipelined one with probability 1/5, one in eight "
+            "of those with 64 requests). A pipelined client is owed ALL its responses iff its connection had been "
+            "dealt with by the accept loop, every byte of its requests had been written AND acknowledged by the "
+            "server's kernel (SIOCOUTQ = 0) and a 10 ms grace had passed when the signal was sent (the harness "
+            "waits for exactly that before it sends the signal in modes A, M, Q); such clients are in the case's "
+            "must list. All connections are read only AFTER run has returned (deadline 4 s + 2 ms per connection + "
+            "the nominal handler times of the scenario), each until it has every response it is owed; client code "
+            "C = all n responses complete, bodies in the order of the requests, nothing after them but the idle "
+            "connection's 408; M = at least one but not all, each complete, connection closed; P = a truncated "
+            "response, a body out of order or stray bytes; Z / T as below. LARGE STATES (signal mode Q, both runtimes, every tier): "
             "pools of 1, 2 and 8 threads with EVERY worker held by a connection that does not finish (seed-chosen "
             "J / H / O / K, no connection timeout; k = pool size, these are placed one by one) and 200 and 1 100 "
             "further connections (thorough tier: also 5 000, and 12 seed-chosen scenarios per runtime with pools of "
             "1..8 and 17..3 000 further connections, a third of them within 128*threads -2..+140) that are accepted "
             "and queued behind them (tokio: spawned and idle) when the signal is sent: silent, idle keep-alive and "
-            "half-sent ones with four complete requests (S S S W) at seed-chosen places and one S as the very last "
+            "half-sent ones with four complete requests (S S S W) and two pipelined connections (2..5 requests) at "
+            "seed-chosen places and one S as the very last "
             "(dispatched before the signal: must be answered completely after run has returned and the holders "
             "have let go), so that any bound on queued work up to a few thousand is crossed. These connections "
             "are made in a burst that stays at most 48 ahead of the accept loop (the listen backlog is never the "
@@ -39,14 +61,16 @@ CFG = {
             "of the workers is replayed through Model/Shutdown.lean by the Lean driver (a rejected event = model and "
             "code disagree); the summary is compared with the model's end state (returned, port closed, workers "
             "exited, which in-flight clients were dispatched and finished) and judged by Spec/Shutdown.lean "
-            "(Summary.ok: not wedged, port free, no P, no T, every client whose complete request had been dispatched "
-            "before the signal was sent has a complete response, all workers exited). A probe connection made when "
+            "(Summary.ok: not wedged, port free, no P, no T, every client whose complete request(s) had been dispatched "
+            "before the signal was sent has a complete response (a pipelined one: all of them, M is not enough), "
+            "all workers exited). A probe connection made when "
             "the pool's Drop begins shows that the listener is already closed. Non-trivial = at least one "
             "connection; distinct = distinct (scenario, event log).",
     "exhaustive": False,
     "violation_text": "App::run did not do what C20 demands in this scenario: run was not back 3 s after the signal "
                       "(WEDGED), the port could not be bound again, an in-flight response was truncated or never came, "
-                      "a request dispatched before the signal was not answered completely, or workers were left behind",
+                      "a request dispatched before the signal (also: pipelined behind the one being handled) was not answered "
+                      "completely, or workers were left behind",
     "trusted_base": ["Spec/Shutdown.lean: Ev, Precedes, FlagBeforeWakeup, End.shutDown, End.nothingLost, Summary.ok",
                      "Proofs/Shutdown.lean: evOf / endOf (the view of the model in the spec's vocabulary)",
                      "the C08 pool model and its theorems (drop_never_blocks, terminal_all_done, exactly_once, measure) "
